@@ -41,7 +41,12 @@ def judge(ln):
         if pts is None or kind != 'H':
             # an open / malformed candidate: must not change anything
             if cls == 'ok': return ('skip', 'malformed-operand')
-            if new_n != ninner or abs(new_area - area) > tol * max(area, 1): return ('fail', 'err-changed-polygon', 'refused cut changed the polygon')
+            # before the crate has reported an area of its own, the comparison is against the exact area of the document's
+            # outline, from which Loop3D may have dropped vertices worth up to 5e-6 m2 each (as in the accounting below; the
+            # missing allowance was a false alarm of the thorough tier, seed 6: a 16-gon with one tolerance-collinear vertex)
+            slack = 5e-6 * len(outer) if not area_reported else 0.0
+            if new_n != ninner or abs(new_area - area) > tol * max(area, 1) + slack: return ('fail', 'err-changed-polygon', 'refused cut changed the polygon')
+            area = new_area; area_reported = True
             continue
         Vh = vector_area_rel(pts)
         this_off = True
